@@ -1093,7 +1093,7 @@ def proof_stage(ck):
     return ok, failing
 
 
-EXPECT_THEOREMS = 1
+EXPECT_THEOREMS = 24
 
 
 def run(ck):
